@@ -43,6 +43,12 @@ func DescribedMap(desc string) map[expr.Operator]driver.RenderFN {
 		for _, op := range AllOps {
 			m[op] = TraceFn(op)
 		}
+	case "empty":
+		// a map that registers no operator at all
+	case "nil":
+		return nil
+	case "only":
+		m[arg] = TraceFn(arg)
 	case "trace-minus":
 		for _, op := range AllOps {
 			if op != arg {
